@@ -1520,6 +1520,7 @@ def check_crosstab_merge(prog, rep, m, entry):
         return _S().visit(_copy0.deepcopy(e))
     first = any(isinstance(x, ast.Assign) and norm(rs_(x.value)).replace(' ', '') == '%s[0]' % B for x in f.own_nodes()) or \
         any(norm(rs_(v_)).replace(' ', '') == '%s[0]' % B for v_ in al_.values())
+    candidate = wrong_range = False
     for lp in [x for x in f.own_nodes() if isinstance(x, ast.For)]:
         it = norm(rs_(lp.iter)).replace(' ', '')
         if it == 'range(1,len(%s))' % B and isinstance(lp.target, ast.Name):
@@ -1527,7 +1528,12 @@ def check_crosstab_merge(prog, rep, m, entry):
         elif it == '%s[1:]' % B and isinstance(lp.target, ast.Name):
             blk = lp.target.id
         else:
+            import re as _re
+            if _re.fullmatch(r'range\((\d+),len\(%s\)(-\d+)?\)' % _re.escape(B), it) or _re.fullmatch(r'%s\[(\d+):(-?\d+)?\]' % _re.escape(B), it) or \
+                    _re.fullmatch(r'range\(len\(%s\)-\d+\)' % _re.escape(B), it):
+                wrong_range = True      # a loop over the blocks that positively leaves some of them out
             continue
+        candidate = True
         # a local that names the block of this turn (`b = blocks[i]`) reads as the expression it stands for
         alias = {}
         body_ = []
@@ -1562,7 +1568,8 @@ def check_crosstab_merge(prog, rep, m, entry):
                 continue
             ok = first and okv and norm(a.target).replace(' ', '').endswith('[%s]' % k)
     n += 1
-    rep.add('Z8', f, entry, 'block merge loop', f.node.lineno, ok,
+    # no loop over the further blocks recognised at all: not a finding (the merge may be written another way) - undecided
+    rep.add('Z8', f, entry, 'block merge loop', f.node.lineno, True if ok else (False if (candidate or wrong_range) else None),
             'per-block dicts must be summed key-wise over ALL keys of ALL further blocks (range(1, len(blocks)))')
     # percentage after the merge
     pct = [x for x in f.own_nodes() if isinstance(x, ast.If) and 'percentage' in norm(x.test)]
